@@ -6,11 +6,11 @@ cd "$(dirname "$0")"
 export GOFLAGS=-mod=mod GOPROXY=off GOSUMDB=off GOTOOLCHAIN=local
 mkdir -p bin evidence replays
 go build -o bin/vcheck ./cmd/vcheck
-go run ./cmd/vinstr -src /repo -out bin/overlay
-go build -tags verif -overlay bin/overlay/overlay.json -o bin/vcheck-shadow ./cmd/vcheck
-go build -race -tags verif -overlay bin/overlay/overlay.json -o bin/vcheck-race ./cmd/vcheck
+go run ./cmd/vinstr -src /repo -out bin/_overlay
+go build -tags verif -overlay bin/_overlay/overlay.json -o bin/vcheck-shadow ./cmd/vcheck
+go build -race -tags verif -overlay bin/_overlay/overlay.json -o bin/vcheck-race ./cmd/vcheck
 # conformance of the instrumentation: the repository's own tests must pass inside the overlay build
-(cd /repo && go test -tags verif -overlay /verif/bin/overlay/overlay.json -vet=off -count=1 ./... > /verif/bin/overlay-selftest.log 2>&1) || { echo "overlay conformance run failed"; tail -5 bin/overlay-selftest.log; exit 1; }
+(cd /repo && go test -tags verif -overlay /verif/bin/_overlay/overlay.json -vet=off -count=1 ./... > /verif/bin/_overlay-selftest.log 2>&1) || { echo "overlay conformance run failed"; tail -5 bin/_overlay-selftest.log; exit 1; }
 # the reference model must agree with the GDA vector files (external authority), else nothing it says is believed
 ./bin/vcheck selftest-ref /repo/testdata > bin/selftest-ref.log 2>&1 || { echo "reference model self-test failed"; head -20 bin/selftest-ref.log; exit 1; }
 head -1 bin/selftest-ref.log
